@@ -82,7 +82,8 @@ impl Prop for C06 {
     fn gen(&self, src: &mut Src) -> Case {
         let n_dcs = 1 + src.below(3);
         let n = 1 + src.below(6);
-        let nodes: Vec<(u8, String)> = (0..n).map(|i| (i as u8 + 1, format!("dc-{}", src.below(n_dcs)))).collect();
+        let style = src.below(3);
+        let nodes: Vec<(u8, String)> = (0..n).map(|i| (i as u8 + 1, crate::c15::dc_name(style, src.below(n_dcs)))).collect();
         let issuer = src.below(n);
         let level = src.below(LEVELS.len());
         let kind = *src.pick(&[Kind::Put, Kind::Del, Kind::PutMany, Kind::DelMany]);
@@ -439,7 +440,8 @@ pub mod membership {
         fn gen(&self, src: &mut Src) -> Case {
             let n_dcs = 1 + src.below(2);
             let n = 1 + src.below(4);
-            let nodes: Vec<(u8, String)> = (0..n).map(|i| (i as u8 + 1, format!("dc-{}", src.below(n_dcs)))).collect();
+            let style = src.below(3);
+            let nodes: Vec<(u8, String)> = (0..n).map(|i| (i as u8 + 1, crate::c15::dc_name(style, src.below(n_dcs)))).collect();
             let issuer = src.below(n);
             let level = src.below(LEVELS.len());
             let kind = *src.pick(&[Kind::Put, Kind::Del, Kind::PutMany, Kind::DelMany]);
@@ -456,7 +458,7 @@ pub mod membership {
             // the operation's own level is selected beforehand most of the time: that is what the cache keeps
             let earlier = (0..src.below(4)).map(|_| if src.chance(2, 3) { level } else { src.below(LEVELS.len()) }).collect();
             let change = src.weighted(&[3, 2, 2]);
-            let joiner = if change == 0 || change == 2 { Some(format!("dc-{}", src.below(n_dcs))) } else { None };
+            let joiner = if change == 0 || change == 2 { Some(crate::c15::dc_name(style, src.below(n_dcs))) } else { None };
             let leaver = if (change == 1 || change == 2) && n >= 2 {
                 let others: Vec<usize> = (0..n).filter(|i| *i != issuer).collect();
                 Some(others[src.below(others.len())])
